@@ -210,7 +210,6 @@ var setterSpecs = []setterSpec{
 	{"mxj.SetCheckTagToSkipFunc", "mxj.checkTagToSkip", [3][]string{{"param:fn"}, nil, nil}, "registers function"},
 	{"mxj.XmlGoEmptyElemSyntax", "mxj.useGoXmlEmptyElemSyntax", [3][]string{{"const:true:bool"}, nil, nil}, "<tag></tag>"},
 	{"mxj.XmlDefaultEmptyElemSyntax", "mxj.useGoXmlEmptyElemSyntax", [3][]string{{"const:false:bool"}, nil, nil}, "reverses XmlGoEmptyElemSyntax"},
-	{"x2jw.CastNanInf", "x2jw.castNanInf", [3][]string{{"param:b"}, nil, nil}, "sets the switch"},
 }
 
 var tog3 = [3][]string{{"toggle"}, {"arg0"}, {"same"}}
